@@ -146,7 +146,50 @@ func Load(repo string, v Variant) (*Program, error) {
 	}
 	sort.Slice(p.Pkgs, func(i, j int) bool { return p.Pkgs[i].PkgPath < p.Pkgs[j].PkgPath })
 	p.index()
+	p.indexForwarders()
 	return p, nil
+}
+
+// forwardOf: unexported functions of the root package whose whole body is `return x.m(params...)` with m a method
+// of one of the package's interfaces and the parameters passed on unchanged and in order. A call of such a function
+// is named (calleeName) like the interface method it stands for, so that the rules written about that method also
+// see it behind a one-line wrapper.
+var forwardOf = map[*types.Func]*types.Func{}
+
+func (p *Program) indexForwarders() {
+	forwardOf = map[*types.Func]*types.Func{}
+	for _, fi := range p.Funcs {
+		if fi.Pkg != p.Root || fi.Decl.Body == nil || fi.Obj.Exported() || len(fi.Decl.Body.List) != 1 {
+			continue
+		}
+		rs, ok := fi.Decl.Body.List[0].(*ast.ReturnStmt)
+		if !ok || len(rs.Results) != 1 {
+			continue
+		}
+		c, ok := ast.Unparen(rs.Results[0]).(*ast.CallExpr)
+		if !ok {
+			continue
+		}
+		info := fi.Pkg.TypesInfo
+		target := calleeOf(info, c)
+		if target == nil || target.Pkg() != fi.Pkg.Types {
+			continue
+		}
+		sig, _ := target.Type().(*types.Signature)
+		if sig == nil || sig.Recv() == nil || !types.IsInterface(sig.Recv().Type()) {
+			continue
+		}
+		same := true
+		for i, a := range c.Args {
+			po := paramObj(info, fi.Decl.Type, i)
+			if po == nil || !isIdentOf(info, a, po) {
+				same = false
+			}
+		}
+		if same && len(c.Args) > 0 && paramObj(info, fi.Decl.Type, len(c.Args)) == nil {
+			forwardOf[fi.Obj] = target
+		}
+	}
 }
 
 // LoadLZ4 loads the separate lz4 module into its own Program.
